@@ -692,24 +692,26 @@ class ESME:
                 )
                 await self.correlator.put_delivery(smpp_message.message_id, original_message)
 
-                segment_status: Optional[SegmentStatus]
-                status_code: int
-                segment_status, status_code = await self.correlator.get_segmented(
-                    smpp_message.sequence_num
-                )
-                self._logger.debug(
-                    'Segmentation check status',
-                    sequence_num=smpp_message.sequence_num,
-                    segment_status=segment_status,
-                    status_code=status_code,
-                )
-                if segment_status:
-                    if status_code == STATUS_SENDING:
-                        # All segments are not processed yet, return placeholder
-                        smpp_message = _SUBMIT_SM_SEGMENT
-                    else:
-                        # Use last pertinent segment response
-                        smpp_message = segment_status.last_response or smpp_message
+            # A failed segment must not be reported on its own either: the message gets
+            # a single outcome when all its segments have been processed
+            segment_status: Optional[SegmentStatus]
+            status_code: int
+            segment_status, status_code = await self.correlator.get_segmented(
+                smpp_message.sequence_num
+            )
+            self._logger.debug(
+                'Segmentation check status',
+                sequence_num=smpp_message.sequence_num,
+                segment_status=segment_status,
+                status_code=status_code,
+            )
+            if segment_status:
+                if status_code == STATUS_SENDING:
+                    # All segments are not processed yet, return placeholder
+                    smpp_message = _SUBMIT_SM_SEGMENT
+                else:
+                    # Use last pertinent segment response
+                    smpp_message = segment_status.last_response or smpp_message
 
         self._logger.debug(
             'Handled SMPP response',
